@@ -7,22 +7,22 @@ uniqueness of strictly sorted lists.
 namespace Badger
 
 /-- strictly sorted by key under `cmp` (hence duplicate-free keys) -/
-def SortedBy (cmp : Bytes → Bytes → Ordering) (l : List Entry) : Prop :=
+def SortedBy (cmp : Bytes → Bytes → Ordering) (l : List ItEntry) : Prop :=
   l.Pairwise (fun a b => cmp a.key b.key = .lt)
 
-def keysOf (l : List Entry) : List Bytes := l.map Entry.key
+def keysOf (l : List ItEntry) : List Bytes := l.map ItEntry.key
 
 @[simp] theorem keysOf_nil : keysOf [] = [] := rfl
-@[simp] theorem keysOf_cons (a : Entry) (l : List Entry) : keysOf (a :: l) = a.key :: keysOf l := rfl
-@[simp] theorem keysOf_append (a b : List Entry) : keysOf (a ++ b) = keysOf a ++ keysOf b := by
+@[simp] theorem keysOf_cons (a : ItEntry) (l : List ItEntry) : keysOf (a :: l) = a.key :: keysOf l := rfl
+@[simp] theorem keysOf_append (a b : List ItEntry) : keysOf (a ++ b) = keysOf a ++ keysOf b := by
   simp [keysOf]
-theorem mem_keysOf {k : Bytes} {l : List Entry} : k ∈ keysOf l ↔ ∃ e ∈ l, e.key = k := by
+theorem mem_keysOf {k : Bytes} {l : List ItEntry} : k ∈ keysOf l ↔ ∃ e ∈ l, e.key = k := by
   simp [keysOf]
-theorem key_mem_keysOf {e : Entry} {l : List Entry} (h : e ∈ l) : e.key ∈ keysOf l :=
+theorem key_mem_keysOf {e : ItEntry} {l : List ItEntry} (h : e ∈ l) : e.key ∈ keysOf l :=
   mem_keysOf.mpr ⟨e, h, rfl⟩
 
 /-- Two-way merge; on equal keys the left entry is kept and the right one dropped. -/
-def mergeLists (cmp : Bytes → Bytes → Ordering) : List Entry → List Entry → List Entry
+def mergeLists (cmp : Bytes → Bytes → Ordering) : List ItEntry → List ItEntry → List ItEntry
   | [], r => r
   | a :: l, [] => a :: l
   | a :: l, b :: r =>
@@ -35,33 +35,33 @@ termination_by l r => l.length + r.length
 section
 variable {cmp : Bytes → Bytes → Ordering}
 
-@[simp] theorem mergeLists_nil_left (r : List Entry) : mergeLists cmp [] r = r := by
+@[simp] theorem mergeLists_nil_left (r : List ItEntry) : mergeLists cmp [] r = r := by
   simp [mergeLists]
 
-@[simp] theorem mergeLists_nil_right (l : List Entry) : mergeLists cmp l [] = l := by
+@[simp] theorem mergeLists_nil_right (l : List ItEntry) : mergeLists cmp l [] = l := by
   cases l <;> simp [mergeLists]
 
-theorem mergeLists_cons_lt {a b : Entry} {l r : List Entry} (h : cmp a.key b.key = .lt) :
+theorem mergeLists_cons_lt {a b : ItEntry} {l r : List ItEntry} (h : cmp a.key b.key = .lt) :
     mergeLists cmp (a :: l) (b :: r) = a :: mergeLists cmp l (b :: r) := by
   rw [mergeLists]; simp [h]
 
-theorem mergeLists_cons_eq {a b : Entry} {l r : List Entry} (h : cmp a.key b.key = .eq) :
+theorem mergeLists_cons_eq {a b : ItEntry} {l r : List ItEntry} (h : cmp a.key b.key = .eq) :
     mergeLists cmp (a :: l) (b :: r) = a :: mergeLists cmp l r := by
   rw [mergeLists]; simp [h]
 
-theorem mergeLists_cons_gt {a b : Entry} {l r : List Entry} (h : cmp a.key b.key = .gt) :
+theorem mergeLists_cons_gt {a b : ItEntry} {l r : List ItEntry} (h : cmp a.key b.key = .gt) :
     mergeLists cmp (a :: l) (b :: r) = b :: mergeLists cmp (a :: l) r := by
   rw [mergeLists]; simp [h]
 
-theorem SortedBy.tail {a : Entry} {l : List Entry} (h : SortedBy cmp (a :: l)) : SortedBy cmp l :=
+theorem SortedBy.tail {a : ItEntry} {l : List ItEntry} (h : SortedBy cmp (a :: l)) : SortedBy cmp l :=
   (List.pairwise_cons.mp h).2
 
-theorem SortedBy.head_lt {a : Entry} {l : List Entry} (h : SortedBy cmp (a :: l)) :
+theorem SortedBy.head_lt {a : ItEntry} {l : List ItEntry} (h : SortedBy cmp (a :: l)) :
     ∀ x ∈ l, cmp a.key x.key = .lt := (List.pairwise_cons.mp h).1
 
 theorem SortedBy.nil : SortedBy cmp [] := List.Pairwise.nil
 
-theorem mem_mergeLists {e : Entry} {l r : List Entry} (h : e ∈ mergeLists cmp l r) :
+theorem mem_mergeLists {e : ItEntry} {l r : List ItEntry} (h : e ∈ mergeLists cmp l r) :
     e ∈ l ∨ e ∈ r := by
   fun_induction mergeLists cmp l r with
   | case1 r => exact .inr h
@@ -85,7 +85,7 @@ theorem mem_mergeLists {e : Entry} {l r : List Entry} (h : e ∈ mergeLists cmp 
       · exact .inl h
       · exact .inr (List.mem_cons_of_mem _ h)
 
-theorem sortedBy_mergeLists (T : TotalCmp cmp) {l r : List Entry} (hl : SortedBy cmp l)
+theorem sortedBy_mergeLists (T : TotalCmp cmp) {l r : List ItEntry} (hl : SortedBy cmp l)
     (hr : SortedBy cmp r) : SortedBy cmp (mergeLists cmp l r) := by
   fun_induction mergeLists cmp l r with
   | case1 r => exact hr
@@ -116,7 +116,7 @@ theorem sortedBy_mergeLists (T : TotalCmp cmp) {l r : List Entry} (hl : SortedBy
     · exact hr.head_lt x hx
 
 /-- Keys of the merge are the union of the keys. -/
-theorem mem_keysOf_mergeLists (T : TotalCmp cmp) {k : Bytes} {l r : List Entry} :
+theorem mem_keysOf_mergeLists (T : TotalCmp cmp) {k : Bytes} {l r : List ItEntry} :
     k ∈ keysOf (mergeLists cmp l r) ↔ k ∈ keysOf l ∨ k ∈ keysOf r := by
   fun_induction mergeLists cmp l r with
   | case1 r => simp
@@ -127,7 +127,7 @@ theorem mem_keysOf_mergeLists (T : TotalCmp cmp) {k : Bytes} {l r : List Entry} 
     simp only [keysOf_cons, List.mem_cons, ih]; grind
   | case5 a l b r hc ih => simp only [keysOf_cons, List.mem_cons, ih]; grind
 
-theorem SortedBy.key_not_mem (T : TotalCmp cmp) {a : Entry} {l : List Entry}
+theorem SortedBy.key_not_mem (T : TotalCmp cmp) {a : ItEntry} {l : List ItEntry}
     (h : SortedBy cmp (a :: l)) : a.key ∉ keysOf l := by
   intro hm
   obtain ⟨e, he, hk⟩ := mem_keysOf.mp hm
@@ -137,7 +137,7 @@ theorem SortedBy.key_not_mem (T : TotalCmp cmp) {a : Entry} {l : List Entry}
 
 /-- Entries of the merge: everything from the left, and from the right what has no
     equal key on the left. -/
-theorem mem_mergeLists_iff (T : TotalCmp cmp) {e : Entry} {l r : List Entry}
+theorem mem_mergeLists_iff (T : TotalCmp cmp) {e : ItEntry} {l r : List ItEntry}
     (hl : SortedBy cmp l) (hr : SortedBy cmp r) :
     e ∈ mergeLists cmp l r ↔ e ∈ l ∨ (e ∈ r ∧ e.key ∉ keysOf l) := by
   fun_induction mergeLists cmp l r with
@@ -206,7 +206,7 @@ theorem mem_mergeLists_iff (T : TotalCmp cmp) {e : Entry} {l r : List Entry}
 
 /-- In the equal-keys case dropping the right head first (what `fix` does) does not
     change the merge. -/
-theorem mergeLists_drop_right_eq (T : TotalCmp cmp) {a b : Entry} {l r : List Entry}
+theorem mergeLists_drop_right_eq (T : TotalCmp cmp) {a b : ItEntry} {l r : List ItEntry}
     (hc : cmp a.key b.key = .eq) (hr : SortedBy cmp (b :: r)) :
     mergeLists cmp (a :: l) (b :: r) = mergeLists cmp (a :: l) r := by
   rw [mergeLists_cons_eq hc]
@@ -217,16 +217,16 @@ theorem mergeLists_drop_right_eq (T : TotalCmp cmp) {a b : Entry} {l r : List En
       rw [(T.eq_iff _ _).mp hc]; exact hr.head_lt b' (by simp)
     rw [mergeLists_cons_lt this]
 
-theorem dw_pos {k : Bytes} (a : Entry) (l : List Entry) (h : cmp a.key k = .lt) :
+theorem dw_pos {k : Bytes} (a : ItEntry) (l : List ItEntry) (h : cmp a.key k = .lt) :
     (a :: l).dropWhile (fun e => cmp e.key k == .lt) = l.dropWhile (fun e => cmp e.key k == .lt) :=
   List.dropWhile_cons_of_pos (by simp [h])
 
-theorem dw_neg {k : Bytes} (a : Entry) (l : List Entry) (h : cmp a.key k ≠ .lt) :
+theorem dw_neg {k : Bytes} (a : ItEntry) (l : List ItEntry) (h : cmp a.key k ≠ .lt) :
     (a :: l).dropWhile (fun e => cmp e.key k == .lt) = a :: l :=
   List.dropWhile_cons_of_neg (by simp [h])
 
 /-- `Seek` commutes with merging. -/
-theorem dropWhile_mergeLists (T : TotalCmp cmp) (k : Bytes) (l r : List Entry) :
+theorem dropWhile_mergeLists (T : TotalCmp cmp) (k : Bytes) (l r : List ItEntry) :
     (mergeLists cmp l r).dropWhile (fun e => cmp e.key k == .lt) =
       mergeLists cmp (l.dropWhile (fun e => cmp e.key k == .lt))
         (r.dropWhile (fun e => cmp e.key k == .lt)) := by
@@ -253,7 +253,7 @@ theorem dropWhile_mergeLists (T : TotalCmp cmp) (k : Bytes) (l r : List Entry) :
       rw [dw_neg b _ hb, dw_neg a l ha, dw_neg b r hb, mergeLists_cons_gt hc]
 
 /-- A strictly sorted list is determined by its members. -/
-theorem sortedBy_ext (T : TotalCmp cmp) {l l' : List Entry} (hl : SortedBy cmp l)
+theorem sortedBy_ext (T : TotalCmp cmp) {l l' : List ItEntry} (hl : SortedBy cmp l)
     (hl' : SortedBy cmp l') (h : ∀ e, e ∈ l ↔ e ∈ l') : l = l' := by
   induction l generalizing l' with
   | nil =>
@@ -292,7 +292,7 @@ theorem sortedBy_ext (T : TotalCmp cmp) {l l' : List Entry} (hl : SortedBy cmp l
 
 /-! ## `insertIfAbsent` / `mergeSpecG` -/
 
-theorem mem_insertIfAbsent (T : TotalCmp cmp) {e x : Entry} {acc : List Entry}
+theorem mem_insertIfAbsent (T : TotalCmp cmp) {e x : ItEntry} {acc : List ItEntry}
     (hs : SortedBy cmp acc) :
     x ∈ insertIfAbsent cmp e acc ↔ x ∈ acc ∨ (x = e ∧ e.key ∉ keysOf acc) := by
   induction acc with
@@ -321,7 +321,7 @@ theorem mem_insertIfAbsent (T : TotalCmp cmp) {e x : Entry} {acc : List Entry}
       simp only [List.mem_cons, ih hs.tail, keysOf_cons]
       grind
 
-theorem sortedBy_insertIfAbsent (T : TotalCmp cmp) {e : Entry} {acc : List Entry}
+theorem sortedBy_insertIfAbsent (T : TotalCmp cmp) {e : ItEntry} {acc : List ItEntry}
     (hs : SortedBy cmp acc) : SortedBy cmp (insertIfAbsent cmp e acc) := by
   induction acc with
   | nil => simp [insertIfAbsent, SortedBy]
@@ -343,17 +343,17 @@ theorem sortedBy_insertIfAbsent (T : TotalCmp cmp) {e : Entry} {acc : List Entry
       · subst hz; exact (T.gt_iff _ _).mp hc
 
 /-- `x` is the first entry of `es` carrying its key. -/
-def FirstIn (x : Entry) : List Entry → Prop
+def FirstIn (x : ItEntry) : List ItEntry → Prop
   | [] => False
   | e :: es => x = e ∨ (x.key ≠ e.key ∧ FirstIn x es)
 
-theorem firstIn_append (x : Entry) (a b : List Entry) :
+theorem firstIn_append (x : ItEntry) (a b : List ItEntry) :
     FirstIn x (a ++ b) ↔ FirstIn x a ∨ (x.key ∉ keysOf a ∧ FirstIn x b) := by
   induction a with
   | nil => simp [FirstIn]
   | cons e es ih => simp only [List.cons_append, FirstIn, ih, keysOf_cons, List.mem_cons]; grind
 
-theorem firstIn_of_sorted (T : TotalCmp cmp) {x : Entry} {l : List Entry} (hs : SortedBy cmp l) :
+theorem firstIn_of_sorted (T : TotalCmp cmp) {x : ItEntry} {l : List ItEntry} (hs : SortedBy cmp l) :
     FirstIn x l ↔ x ∈ l := by
   induction l with
   | nil => simp [FirstIn]
@@ -367,7 +367,7 @@ theorem firstIn_of_sorted (T : TotalCmp cmp) {x : Entry} {l : List Entry} (hs : 
       · exact .inl h
       · exact .inr ⟨fun hk => T.lt_irrefl _ (hk ▸ hs.head_lt x h), h⟩
 
-theorem foldl_insertIfAbsent (T : TotalCmp cmp) (es acc : List Entry) (hs : SortedBy cmp acc) :
+theorem foldl_insertIfAbsent (T : TotalCmp cmp) (es acc : List ItEntry) (hs : SortedBy cmp acc) :
     SortedBy cmp (es.foldl (fun acc e => insertIfAbsent cmp e acc) acc) ∧
     ∀ x, x ∈ es.foldl (fun acc e => insertIfAbsent cmp e acc) acc ↔
       x ∈ acc ∨ (x.key ∉ keysOf acc ∧ FirstIn x es) := by
@@ -400,11 +400,11 @@ theorem foldl_insertIfAbsent (T : TotalCmp cmp) (es acc : List Entry) (hs : Sort
     · grind
 
 /-- `x` occurs in the earliest input that has an entry with `x`'s key. -/
-def FirstWith (x : Entry) : List (List Entry) → Prop
+def FirstWith (x : ItEntry) : List (List ItEntry) → Prop
   | [] => False
   | l :: rest => x ∈ l ∨ (x.key ∉ keysOf l ∧ FirstWith x rest)
 
-theorem firstIn_flatten (T : TotalCmp cmp) (x : Entry) (inputs : List (List Entry))
+theorem firstIn_flatten (T : TotalCmp cmp) (x : ItEntry) (inputs : List (List ItEntry))
     (hs : ∀ l ∈ inputs, SortedBy cmp l) : FirstIn x inputs.flatten ↔ FirstWith x inputs := by
   induction inputs with
   | nil => simp [FirstIn, FirstWith]
@@ -412,13 +412,13 @@ theorem firstIn_flatten (T : TotalCmp cmp) (x : Entry) (inputs : List (List Entr
     simp only [List.flatten_cons, firstIn_append, FirstWith]
     rw [firstIn_of_sorted T (hs l (by simp)), ih (fun l hl => hs l (List.mem_cons_of_mem _ hl))]
 
-theorem firstWith_append (x : Entry) (a b : List (List Entry)) :
+theorem firstWith_append (x : ItEntry) (a b : List (List ItEntry)) :
     FirstWith x (a ++ b) ↔ FirstWith x a ∨ ((∀ l ∈ a, x.key ∉ keysOf l) ∧ FirstWith x b) := by
   induction a with
   | nil => simp [FirstWith]
   | cons l rest ih => simp only [List.cons_append, FirstWith, ih, List.mem_cons]; grind
 
-theorem firstWith_mem {x : Entry} {inputs : List (List Entry)} (h : FirstWith x inputs) :
+theorem firstWith_mem {x : ItEntry} {inputs : List (List ItEntry)} (h : FirstWith x inputs) :
     ∃ l ∈ inputs, x ∈ l := by
   induction inputs with
   | nil => exact absurd h (by simp [FirstWith])
@@ -428,19 +428,19 @@ theorem firstWith_mem {x : Entry} {inputs : List (List Entry)} (h : FirstWith x 
     · obtain ⟨l', h1, h2⟩ := ih h
       exact ⟨l', List.mem_cons_of_mem _ h1, h2⟩
 
-theorem sortedBy_mergeSpecG (T : TotalCmp cmp) (inputs : List (List Entry)) :
+theorem sortedBy_mergeSpecG (T : TotalCmp cmp) (inputs : List (List ItEntry)) :
     SortedBy cmp (mergeSpecG cmp inputs) :=
   (foldl_insertIfAbsent T inputs.flatten [] SortedBy.nil).1
 
-theorem mem_mergeSpecG (T : TotalCmp cmp) (inputs : List (List Entry))
-    (hs : ∀ l ∈ inputs, SortedBy cmp l) (x : Entry) :
+theorem mem_mergeSpecG (T : TotalCmp cmp) (inputs : List (List ItEntry))
+    (hs : ∀ l ∈ inputs, SortedBy cmp l) (x : ItEntry) :
     x ∈ mergeSpecG cmp inputs ↔ FirstWith x inputs := by
   unfold mergeSpecG
   rw [(foldl_insertIfAbsent T inputs.flatten [] SortedBy.nil).2 x, firstIn_flatten T x inputs hs]
   simp
 
 /-- keys of the spec = union of the input keys -/
-theorem mem_keysOf_mergeSpecG (T : TotalCmp cmp) (inputs : List (List Entry))
+theorem mem_keysOf_mergeSpecG (T : TotalCmp cmp) (inputs : List (List ItEntry))
     (hs : ∀ l ∈ inputs, SortedBy cmp l) (k : Bytes) :
     k ∈ keysOf (mergeSpecG cmp inputs) ↔ ∃ l ∈ inputs, k ∈ keysOf l := by
   induction inputs with
@@ -467,7 +467,7 @@ theorem mem_keysOf_mergeSpecG (T : TotalCmp cmp) (inputs : List (List Entry))
           · exact (mem_mergeSpecG T _ hs2 e').mp he'
 
 /-- The spec splits like the balanced tree of `NewMergeIterator`. -/
-theorem mergeSpecG_append (T : TotalCmp cmp) (a b : List (List Entry))
+theorem mergeSpecG_append (T : TotalCmp cmp) (a b : List (List ItEntry))
     (ha : ∀ l ∈ a, SortedBy cmp l) (hb : ∀ l ∈ b, SortedBy cmp l) :
     mergeSpecG cmp (a ++ b) = mergeLists cmp (mergeSpecG cmp a) (mergeSpecG cmp b) := by
   have hab : ∀ l ∈ a ++ b, SortedBy cmp l := by
@@ -483,21 +483,21 @@ theorem mergeSpecG_append (T : TotalCmp cmp) (a b : List (List Entry))
     mem_mergeSpecG T _ ha, mem_mergeSpecG T _ hb, mem_keysOf_mergeSpecG T _ ha]
   grind
 
-theorem mergeSpecG_singleton (T : TotalCmp cmp) (l : List Entry) (hl : SortedBy cmp l) :
+theorem mergeSpecG_singleton (T : TotalCmp cmp) (l : List ItEntry) (hl : SortedBy cmp l) :
     mergeSpecG cmp [l] = l := by
   apply sortedBy_ext T (sortedBy_mergeSpecG T _) hl
   intro e
   rw [mem_mergeSpecG T _ (by simpa using hl)]
   simp [FirstWith]
 
-theorem sortedBy_reverse {l : List Entry} :
+theorem sortedBy_reverse {l : List ItEntry} :
     SortedBy (fun a b => cmp b a) l.reverse ↔ SortedBy cmp l := by
   unfold SortedBy
   rw [List.pairwise_reverse]
 
 /-- Reverse iteration: the spec over the reversed inputs under the flipped order is the
     reversed spec. -/
-theorem mergeSpecG_reverse (T : TotalCmp cmp) (inputs : List (List Entry))
+theorem mergeSpecG_reverse (T : TotalCmp cmp) (inputs : List (List ItEntry))
     (hs : ∀ l ∈ inputs, SortedBy cmp l) :
     mergeSpecG (fun a b => cmp b a) (inputs.map List.reverse) = (mergeSpecG cmp inputs).reverse := by
   have hs' : ∀ l ∈ inputs.map List.reverse, SortedBy (fun a b => cmp b a) l := by
